@@ -93,16 +93,20 @@ def in_quantifier(case):
                 if k in ("t", "l") and len(x) == 2 and kind_of(x[0])[0] in ("i", "b", "n") and any(
                         kind_of(a)[0] in ("i", "b", "n") and freeze(dec(a)) == freeze(dec(x[0])) and type(dec(a)) is type(dec(x[0])) for a in row["actions"]):
                     return False, "un-hinted two-item action whose first item is itself an offered action"
-    if kw and case.get("kwmap") in MAPPING_FLAVOURS and batch and layout == "col" and hinted:
-        # batch_order / raise_if_not_valid_out recognise `[{hint: column}, kwargs]` with isinstance(p, dict): a kwargs Mapping
-        # that is not a dict is not accepted there by the code as it stands (everywhere else `abc.Mapping` is tested)
-        return False, "column-major hinted answer with a non-dict kwargs Mapping"
     if batch and layout == "col" and not hinted:
         if fmt == "PM" and len(first[0]["actions"]) < 2:
             return False, "un-hinted column-major PMF over one action has the shape of a column of actions"
         if fmt == "A" and not kw and len(first) < 2:
             return False, "un-hinted column-major actions for a one-row batch have the shape of a row-major answer"
     return True, ""
+
+
+def mapping_region(case):
+    """column-major hinted answer followed by a kwargs Mapping that is not a dict: `batch_order` / `raise_if_not_valid_out`
+    recognise `[{hint: column}, kwargs]` with isinstance(p, dict) although `has_kwargs` (and the Kwargs type) say Mapping
+    (open finding C15-F5 until fixes/C15-colhint-kwargs-mapping.diff is in)"""
+    return (bool(case.get("kw")) and case.get("kwmap") in MAPPING_FLAVOURS and bool(case.get("batch")) and case["layout"] == "col"
+            and case["fmt"] in HINT)
 
 
 def defect_class(case):
@@ -112,6 +116,8 @@ def defect_class(case):
     first = case["calls"][0]
     r0 = first[0]
     K = len(r0["actions"])
+    if mapping_region(case) and len(first) == 2:
+        return "col-hint-kw-mapping"
     if batch and layout in ("row", "single") and fmt == "A" and not kw and len(first) >= 2:
         # row-major bare sparse actions whose first and last row have different feature names
         a, b = kind_of(first[0]["actions"][first[0]["pick"]]), kind_of(first[-1]["actions"][first[-1]["pick"]])
@@ -181,6 +187,14 @@ def run_case(case):
                 break
             rec["nl1"] = len(learner.learn_calls)
             rec["rwd"] = rwd
+            # SafeLearner.score for an action of every row: the named one on even calls, its neighbour on odd calls
+            picks = [acts[i][(r["pick"] + ci) % len(acts[i])] for i, r in enumerate(call)]
+            sact = Batch.List(picks) if case.get("batch") else picks[0]
+            rec["score_arg"] = sact
+            try:
+                rec["score"] = safe.score(ctx, act, sact)
+            except Exception as e:
+                rec["score_exc"] = e
         return learner, recs
     finally:
         CobaContext._logger = old
@@ -479,6 +493,9 @@ def variant():
         "batch": ok({"seed": 1, "fmt": "PM", "kw": False, "layout": "row", "batch": True, "calls": [[row(i01, 0, one, 0), row(i01, 1, one, 1)]]}),
         "col": ok({"seed": 1, "fmt": "A", "kw": True, "layout": "col", "batch": True, "calls": [[row(s2, 0, one, 0), row(s2, 1, one, 1)]]}),
         "rowdict": ok({"seed": 1, "fmt": "A", "kw": False, "layout": "row", "batch": True, "calls": [[row(sp, 0, one, 0), row(sp, 1, one, 1)]]}),
+        # not a switch of the model (its dict stands for Mapping = the repaired behaviour): decides whether (A) is run in mapping_region
+        "mapping": ok({"seed": 1, "fmt": "dA", "kw": True, "kwmap": "proxy", "layout": "col", "batch": True,
+                       "calls": [[row(s2, 0, one, 0), row(s2, 1, one, 1)]]}),
     }
     _VARIANT[key] = fx
     return fx
@@ -519,6 +536,12 @@ def outcomes_differ(impl, model):
 
 def trace_by_value(arg):
     return [bool(arg["batch"]), [[strip(r["ctx"]), [strip(a) for a in r["actions"]]] for r in arg["rows"]]]
+
+
+def strip_container(v):
+    """a by-value encoded tuple/list as the list of its items; anything else as it is"""
+    (k, x), = v.items()
+    return x if k in ("t", "l") else v
 
 
 def strip(v):
@@ -663,8 +686,6 @@ def gen_case(rng, stress=0.3):
     if kw:
         # the kwargs payload in several Mapping flavours (SafeLearner.has_kwargs tests abc.Mapping)
         case["kwmap"] = rng.wchoice([(5, "dict"), (1, "ordered"), (1, "default"), (1, "subclass"), (2, "proxy"), (2, "plain"), (2, "chain")])
-        if case["kwmap"] in MAPPING_FLAVOURS and layout == "col" and batch and fmt in HINT:
-            case["kwmap"] = "ordered"      # see in_quantifier: the only place where the code requires a dict
     acts = gen_actions(rng, kind, K)
     K = len(acts)
     ncols = {"A": 1, "AP": 2, "PM": K}.get(fmt, 1) + (1 if kw else 0)
@@ -685,7 +706,7 @@ def gen_case(rng, stress=0.3):
             A = acts if not per_row_acts else rng.shuffle(acts)
             ctx = {"n": 0} if same_ctx else gen_ctx(rng)
             row = {"ctx": ctx, "actions": A, "pick": rng.below(len(A)), "p": rng.wchoice([(4, dy(rng)), (1, {"i": 1}), (1, {"f": [1, 1]}), (1, {"f": [1, 2]})]),
-                   "pmf": gen_pmf(rng, len(A), pmf_style), "kwargs": gen_kwargs(rng, keys if not (kw and rng.chance(0.05)) else rng.shuffle(keys))}
+                   "pmf": gen_pmf(rng, len(A), pmf_style), "kwargs": gen_kwargs(rng, keys if not (kw and rng.chance(0.25)) else rng.shuffle(keys))}
             key = json.dumps([freeze_json(ctx), [freeze_json(a) for a in A]], sort_keys=True)
             if key in seen:        # a learner is a function of what it is given: same (context, actions) -> same answer
                 row = dict(seen[key], ctx=ctx, actions=A)
@@ -784,6 +805,8 @@ class C15(Property):
             "biased to the number of actions and of answer columns (square case); PMFs one-hot int/float/mixed or dyadic (exact float sums); "
             "kwargs payloads in 7 Mapping flavours (50% dict, 15% dict subclasses, 30% non-dict Mappings); 30% of cases stress 0/1-like answers next to 0/1-like action sets; 35% also run through SequentialCB.evaluate; 15% of cases are outside "
             "the quantifier (copies/aliases of offered objects, malformed PMFs, hint-named features) and are checked by (A) only. "
+            "after every predict/learn the same SafeLearner is asked score(context, actions, action) for the named action (even calls) or its neighbour (odd calls); "
+            "kwargs key order differs between rows in 25% of kwargs cases; "
             "non-trivial = in-quantifier case for which the real code returned a result for every call, with >= 2 rows overall or a PMF draw; "
             "distinct by canonical JSON of the case")
     trusted_base = [
@@ -791,17 +814,20 @@ class C15(Property):
         "coba.random.CobaRandom.choicew is the C05 model (finished property C05); PMF entries are dyadic so float sums are exact rationals",
         "isclose(sum,1,abs_tol=.001) modelled as |sum-1| <= 1/1000 (generated sums are exactly 1 or off by >= 1/16)",
         "dict keys are strings (sparse features, kwargs, hints); numpy/torch answers and batches are excluded",
+        "(A) also covers what learn is given (model runHistory vs the learner's learn log, kwargs compared as finite maps) and SafeLearner.score (model score vs the real result)",
         "which of the four proposed repairs the code under test contains is decided by four behavioural probes (variant()); the Lean model has the same four switches (Fixes)",
     ]
     assumptions = ["the learner is a function of (context, actions): the same row is answered the same way in batch, per-row and probe calls",
                    "a SafeLearner is used either always batched or never (as an evaluator does)",
-                   "kwargs of the rows of one batch have the same keys (theorems: in the same order); kwargs keys are not named action/action_prob/pmf",
+                   "kwargs of the rows of one batch have the same key set, in any order; kwargs keys are not named action/action_prob/pmf",
                    "the kwargs payload is any abc.Mapping (dict, OrderedDict/defaultdict/dict subclasses, MappingProxyType, a plain Mapping class, ChainMap); "
-                   "the model's dict stands for Mapping; a non-dict Mapping after a column-major hinted answer is outside (the code tests isinstance(.., dict) there)",
+                   "the model's dict stands for Mapping; a non-dict Mapping after a column-major hinted answer is finding C15-F5 ((A) there only once fixes/C15-colhint-kwargs-mapping.diff is in)",
                    "un-hinted column-major answers: not a single column for a single-row first batch, PMFs over >= 2 actions (design limits, see ambiguity_characterised and notes)"]
     partial_theorems = {"format_roundtrip_pinned_partial": "the pinned commit violates the property in the regions of the recorded defects C15-F1..F4 "
                         "(excluded by the fx=Fixes.none disjuncts of firstRowOK / dictRowsOK / colParseOK and, for C15-F2, by the float-copy premise of "
-                        "pmf_entry_fresh); format_roundtrip is the full-strength theorem for the code with fixes/C15-*.diff applied"}
+                        "pmf_entry_fresh); format_roundtrip is the full-strength theorem for the code with fixes/C15-*.diff applied",
+                        "history_roundtrip": "full strength for every Fixes value; for the model's dict = abc.Mapping reading it mirrors the code only once "
+                        "fixes/C15-colhint-kwargs-mapping.diff (open finding C15-F5) is applied - until then (A) is skipped in that region"}
 
     # ---- cases
     def generate(self, rng, tier):
@@ -841,6 +867,8 @@ class C15(Property):
                 # in the region of a recorded defect the first call's symptom names the finding; once the first call went wrong
                 # (or right by coincidence) the memoised layout/format makes later calls fail in arbitrary ways
                 fam = "later" if detail.startswith("later:") else FAMILY.get(detail, detail if detail.startswith("raises-") else "value")
+                if dclass == "col-hint-kw-mapping":
+                    fam = "read-row-major"        # a two-row first batch is taken for two hinted rows: arbitrary symptoms
                 sig = "%s/%s" % (dclass, fam) if dclass != "general" else "general:%s/%s" % (name, detail.replace("later:", ""))
                 fails.append(F("B", what + "  [seed %s]" % case.get("seed"), sig))
             if not fails and case.get("e2e") and e2e_applicable(case):
@@ -849,7 +877,9 @@ class C15(Property):
                 for what, detail in monitor_e2e(case, l2, res):
                     fails.append(F("B", what + "  [seed %s]" % case.get("seed"), "general:%s/%s" % (name, detail)))
         model = None
-        if driver is not None:
+        if driver is not None and mapping_region(case) and not variant().get("mapping"):
+            tags.append("A-skipped:mapping-region")     # the model's dict = Mapping mirrors the repaired code only
+        elif driver is not None:
             model = self.correspond(driver, case, learner, recs, impl, inq, fails, tags)
         nontrivial = inq and not any("err" in o for o in impl) and len(impl) == len(case["calls"]) and (nrows >= 2 or fmt in ("PM", "dPM"))
         return {"fails": fails, "nontrivial": bool(nontrivial), "tags": tags, "impl": impl, "model": model}
@@ -894,6 +924,15 @@ class C15(Property):
                                 "p": lref.enc(dec(row["p"])), "pmf": [lref.enc(dec(x)) for x in row["pmf"]],
                                 "kw": [[dec(k), lref.enc(dec(v))] for k, v in row["kwargs"]] if case.get("kw") else []})
             req["policy"] = pol
+            if all("rwd" in rec for rec in recs):
+                req["rewards"] = [refs.enc(list(rec["rwd"]) if case.get("batch") else rec["rwd"]) for rec in recs]
+            srecs = [rec for rec in recs if "score_arg" in rec]
+            if srecs:
+                req["score_tup"] = case.get("wrap", "tuple") == "tuple"
+                req["scores"] = [{"batch": bool(case.get("batch")),
+                                  "rows": [{"ctx": refs.enc(c), "actions": [refs.enc(a) for a in A], "action": refs.enc(x)}
+                                           for c, A, x in (zip(rec["ctx"], rec["actions"], rec["score_arg"]) if case.get("batch")
+                                                           else [(rec["ctx"], rec["actions"], rec["score_arg"])])]} for rec in srecs]
         ans = driver.ask(req)
         mrec = outcome_model(ans["recorded"])
         d = outcomes_differ(impl, mrec)
@@ -922,10 +961,52 @@ class C15(Property):
             d2 = outcomes_differ(impl, outcome_model(ans["scripted"]))
             if d2 and not d:
                 fails.append(F("A", "%s: SafeLearner.predict differs from the model run on the Lean scripted learner: %s" % (name, d2), "A:scripted:" + name))
+            self.compare_history(case, learner, recs, ans, fails, tags, name, bool(d or d2))
             if "hyp" in ans:
                 tags.append("hyp:%s/%s" % ("T" if ans["hyp"] else "F", "inq" if inq else "out"))
                 self.check_c(case, ans, fails, name, inq)
         return {"recorded": mrec, "layout": [r.get("layout") for r in ans["recorded"]], "fmt": [r.get("fmt") for r in ans["recorded"]]}
+
+    def compare_history(self, case, learner, recs, ans, fails, tags, name, already):
+        """(A) for `runHistory` (what learn is given) and `score`; (C) for score_roundtrip"""
+        if "history" in ans and not already and case.get("nobatch", "raise") == "raise" and all("nl1" in rec for rec in recs):
+            real = []
+            for rec in recs:
+                lcs = [l for l in learner.learn_calls[rec["nl0"]:rec["nl1"]] if l[0] != "rejected"]
+                real.append([{"ctx": enc(list(l[1]) if l[0] else l[1]), "action": enc(l[2]), "reward": enc(list(l[3]) if l[0] else l[3]),
+                              "prob": enc(l[4]), "kw": enc(l[5])} for l in lcs])
+            def canon_kw(calls):      # **kwargs: the order of the keys means nothing
+                return [dict(c, kw={"d": sorted(c["kw"]["d"], key=json.dumps)}) for c in calls]
+            real = [canon_kw(c) for c in real]
+            h = ans["history"]
+            if "ok" in h:
+                model = [canon_kw(c) for c in h["ok"]]
+                if model != real:
+                    i = [x != y for x, y in zip(model, real)].index(True) if len(model) == len(real) and model != real else -1
+                    fails.append(F("A", "%s: what learn was given differs from the model's runHistory (interaction %d): real %s, model %s" % (
+                        name, i, json.dumps(real[i])[:220], json.dumps(model[i])[:220]), "A:learn:" + name))
+            else:
+                fails.append(F("A", "%s: the model's runHistory raises %s, the real predict/learn sequence did not" % (name, h["err"]), "A:learn:" + name))
+            tags.append("histOK:%s" % ("T" if ans.get("histOK") else "F"))
+        if "scores" in ans:
+            srecs = [rec for rec in recs if "score_arg" in rec]
+            for k, (rec, m, w) in enumerate(zip(srecs, ans["scores"], ans["scores_want"])):
+                if "score_exc" in rec:
+                    got = {"err": EXC.get(type(rec["score_exc"]).__name__, type(rec["score_exc"]).__name__)}
+                else:
+                    got = {"ok": enc(rec["score"])}
+                mm = {"ok": m["ok"]} if "ok" in m else {"err": m["err"]}
+                if ("err" in got) != ("err" in mm) or ("ok" in got and got["ok"] != mm["ok"]) or ("err" in got and mm["err"] not in ("Other", got["err"])):
+                    fails.append(F("A", "%s: SafeLearner.score differs from the model (call %d): real %s, model %s" % (
+                        name, k, json.dumps(got)[:200], json.dumps(mm)[:200]), "A:score:" + name))
+                    break
+                if "ok" in mm:
+                    items = [strip_container(mm["ok"])] if not case.get("batch") else strip_container(mm["ok"])
+                    want = [w] if not case.get("batch") else w
+                    if items != want:
+                        fails.append(F("C", "%s: model score %s is not the per-row scores %s of score_roundtrip" % (name, json.dumps(items)[:150], json.dumps(want)[:150]), "C:score"))
+                        break
+            tags.append("score")
 
     def check_c(self, case, ans, fails, name, inq):
         """(C) run-time sanity check of format_roundtrip_*: whenever the hypotheses hold for a call, the model delivers the spec"""
@@ -1019,8 +1100,6 @@ def corpus_cases():
     for flav in DICT_FLAVOURS[1:] + MAPPING_FLAVOURS:
         for fmt in FMTS:
             for mode in ("not", "single", "row", "col"):
-                if flav in MAPPING_FLAVOURS and mode == "col" and fmt in HINT:
-                    continue
                 acts = sets["str"]
                 for n in ((1,) if mode == "not" else (1, 2, 3)):
                     rows = [row(acts, (i + 1) % 3, i, kw=[[{"s": "step"}, {"i": i}], [{"s": "note"}, {"s": "x"}]]) for i in range(n)]
